@@ -7,7 +7,7 @@
     All theorems quantify over EVERY label list = every client program (any number of handlers,
     RunHandlers / Stop / Close / Run calls and threads) and every schedule. *)
 From WM Require Import Base.Prelude Base.Count RouterLife.Model RouterLife.Monitor RouterLife.Inv
-                       RouterLife.ProofsA RouterLife.ProofsB RouterLife.ProofsW RouterLife.SelfClose RouterLife.Local RouterLife.Accept RouterLife.Theorems RouterLife.Witness.
+                       RouterLife.ProofsA RouterLife.ProofsB RouterLife.ProofsW RouterLife.SelfClose RouterLife.Local RouterLife.AcceptN RouterLife.Accept RouterLife.Theorems RouterLife.Witness.
 
 (** Running() closed => each of the [run_n] handlers registered when Run's RunHandlers took
     handlersLock is started and holds its (one) subscription - unless a Close BEFORE that Run
@@ -231,10 +231,21 @@ Theorem C10_monitor_accepts_partial : forall (f14 f15 f16 : bool) (ls : list lab
 Proof. exact monitor_accepts_codes. Qed.
 Print Assumptions C10_monitor_accepts_partial.
 
-(** the simulation step itself, for every label *)
-Theorem C10_monitor_simulation : forall s m l s' evs,
-  SInv s -> fix4 s = true -> MInv s m -> okbad m ->
-  step s l = Some (s', evs) -> MInv s' (mon_run m evs) /\ okbad (mon_run m evs).
+(** monitor_accepts with the premise of the property's quantifier: in every run in which the WATCHER's own Close
+    removed no handler (ghost [wremoved]: no handler was added while the router was closing itself) the
+    acceptor raises none of the clauses 1, 2, 3, 4, 5, 7, 10 (nor 8, 9, 11): the verdict is 0 or 6.
+    Clause 6 is the only one not tied to the model by this theorem (state-level counterpart: [RInv] /
+    C10_stop_is_local); hence the name of the weaker statement above keeps _partial. *)
+Theorem C10_monitor_accepts : forall (f14 f15 f16 : bool) (ls : list label),
+  wremoved (run (rinit true f14 f15 f16) ls) = false ->
+  let v := verdict (hist (rinit true f14 f15 f16) ls) in v = 0 \/ v = 6.
+Proof. exact monitor_accepts. Qed.
+Print Assumptions C10_monitor_accepts.
+
+(** the simulation step itself, for every label ([PW] = "the watcher's own Close removes a handler in this run") *)
+Theorem C10_monitor_simulation : forall (PW : Prop) s m l s' evs,
+  SInv s -> fix4 s = true -> MInv s m -> NInv s m -> (wremoved s = true -> PW) -> okbad PW m ->
+  step s l = Some (s', evs) -> MInv s' (mon_run m evs) /\ okbad PW (mon_run m evs).
 Proof. exact step_minv. Qed.
 Print Assumptions C10_monitor_simulation.
 
